@@ -243,6 +243,7 @@ func (n *node) RouteSendEvent(from gen.PID, token gen.Ref, options gen.MessageOp
 		n.log.Trace("RouteSendEvent from %s with token %s", from, token)
 	}
 
+	var consumers []gen.PID
 	if from.Node == n.name {
 		// local producer. check if sender is allowed to send this event
 		value, found := n.events.Load(message.Event)
@@ -254,14 +255,21 @@ func (n *node) RouteSendEvent(from gen.PID, token gen.Ref, options gen.MessageOp
 			return gen.ErrEventOwner
 		}
 
+		// the buffer push and the consumer snapshot are one atomic action with
+		// respect to a new subscriber (relation insert + buffer snapshot): it gets
+		// this message either in the list of the last events or as a message, not both
+		lib.VerifPoint("event.push", from)
+		event.lock.Lock()
 		if event.last != nil {
-			lib.VerifPoint("event.push", from)
 			event.last.Push(message)
 		}
+		consumers = n.targetManager.GetConsumersForTarget(message.Event)
+		event.lock.Unlock()
+	} else {
+		lib.VerifPoint("event.consumers", from)
+		consumers = n.targetManager.GetConsumersForTarget(message.Event)
 	}
 
-	lib.VerifPoint("event.consumers", from)
-	consumers := n.targetManager.GetConsumersForTarget(message.Event)
 	remote := make(map[gen.Atom]bool)
 	// a process that holds both a link and a monitor on this event
 	// is listed twice. deliver the message once
@@ -801,19 +809,22 @@ func (n *node) RouteLinkEvent(pid gen.PID, target gen.Event) ([]gen.MessageEvent
 		event := value.(*eventOwner)
 		lib.VerifPoint("route.add", pid)
 		lib.VerifPoint("event.insert", pid)
+		// see RouteSendEvent
+		event.lock.Lock()
 		if err := n.targetManager.AddLink(pid, target); err != nil {
+			event.lock.Unlock()
 			return nil, err
 		}
 		// see RouteLinkPID
 		if _, exist := n.events.Load(target); exist == false {
 			if n.targetManager.RemoveLink(pid, target) == nil {
+				event.lock.Unlock()
 				return nil, gen.ErrEventUnknown
 			}
 		}
 
 		if event.last != nil {
 			// load last N events
-			lib.VerifPoint("event.bufsnap", pid)
 			item := event.last.Item()
 			for {
 				if item == nil {
@@ -824,6 +835,7 @@ func (n *node) RouteLinkEvent(pid gen.PID, target gen.Event) ([]gen.MessageEvent
 				item = item.Next()
 			}
 		}
+		event.lock.Unlock()
 
 		lib.VerifPoint("event.counter", pid)
 		c := atomic.AddInt32(&event.consumers, 1)
@@ -1145,19 +1157,22 @@ func (n *node) RouteMonitorEvent(pid gen.PID, target gen.Event) ([]gen.MessageEv
 		event := value.(*eventOwner)
 		lib.VerifPoint("route.add", pid)
 		lib.VerifPoint("event.insert", pid)
+		// see RouteSendEvent
+		event.lock.Lock()
 		if err := n.targetManager.AddMonitor(pid, target); err != nil {
+			event.lock.Unlock()
 			return nil, err
 		}
 		// see RouteLinkPID
 		if _, exist := n.events.Load(target); exist == false {
 			if n.targetManager.RemoveMonitor(pid, target) == nil {
+				event.lock.Unlock()
 				return nil, gen.ErrEventUnknown
 			}
 		}
 
 		if event.last != nil {
 			// load last N events
-			lib.VerifPoint("event.bufsnap", pid)
 			item := event.last.Item()
 			for {
 				if item == nil {
@@ -1168,6 +1183,7 @@ func (n *node) RouteMonitorEvent(pid gen.PID, target gen.Event) ([]gen.MessageEv
 				item = item.Next()
 			}
 		}
+		event.lock.Unlock()
 
 		lib.VerifPoint("event.counter", pid)
 		c := atomic.AddInt32(&event.consumers, 1)
